@@ -66,6 +66,8 @@ Outer(h) == {
   Call(Fn(<<"abs">>, Call(Nm("abs"), <<h>>)), <<Fn(<<"u">>, Lst(<<U, One>>))>>),
   For(<<It("max", Lst(<<Fn(<<"u", "w">>, Lst(<<Wv, U>>))>>))>>, Call(Nm("max"), <<h, One>>)),
   Path(Cx(<<En("count", Fn(<<"u">>, Bin("add", U, One))), En("r", Lst(<<Call(Nm("count"), <<h>>), Nm("count")>>))>>), "r"),
+  Flt(Lst(<<Cx(<<En("a", h), En("b", Two)>>), Cx(<<En("a", Three)>>), Cx(<<En("b", One)>>)>>), Bin("ge", Nm("b"), One)),
+  Flt(Lst(<<Cx(<<En("y", h)>>), Cx(<<En("a", One)>>)>>), Bin("eq", Y, X)),
   \* equality of composite values whose members are null for different reasons
   Bin("eq", Cx(<<En("a", h), En("b", One)>>), Cx(<<En("a", Nu), En("b", One)>>)), Bin("eq", Lst(<<h, One>>), Lst(<<Nu, One>>)),
   Call(Fn(<<"u">>, Lst(<<U, h>>)), <<X>>),
@@ -89,7 +91,12 @@ Inner == Leaves \cup {
   Bin("in", X, EL(<<[n |-> "utlt", a |-> Two], S("a", <<97>>)>>)),
   Lst(<<X, Y>>), Lst(<<>>), Lst(<<Lst(<<One>>)>>), Lst(<<Nu, One>>), Cx(<<En("a", X)>>), Cx(<<En("a", One), En("b", Bin("add", Nm("a"), One))>>),
   Path(C, "a"), Path(XS, "a"), Flt(XS, One), Flt(XS, Neg(One)), Flt(XS, Three), Flt(XS, Bin("gt", Item, One)), Flt(XS, Bin("eq", Path(Item, "a"), One)),
-  Flt(XS, Bin("eq", Nm("a"), One)),
+  Flt(XS, Bin("eq", Nm("a"), One)), Flt(XS, Bin("ge", Nm("a"), One)),
+  \* filters over contexts with DIFFERENT key sets: an entry of an earlier element must not be seen while a later one is tested
+  Flt(Lst(<<Cx(<<En("a", One), En("b", Two)>>), Cx(<<En("a", Three)>>)>>), Bin("eq", Nm("b"), Two)),
+  Flt(Lst(<<Cx(<<En("x", One)>>), Cx(<<En("z", Two)>>)>>), Bin("eq", X, One)),
+  Flt(Lst(<<Cx(<<En("a", One), En("b", Tr)>>), Cx(<<En("a", Two)>>)>>), Nm("b")),
+  Flt(Lst(<<Cx(<<En("a", One)>>), Cx(<<En("b", Two)>>), Cx(<<En("a", Three)>>)>>), Bin("ge", Nm("a"), One)),
   For(<<It("i", XS)>>, Iv), For(<<It("i", XS), It("j", Lst(<<One, Two>>))>>, Lst(<<Iv, Jv>>)), For(<<Ir("i", Three, One)>>, Iv),
   For(<<It("i", XS), It("j", Lst(<<>>))>>, Iv), For(<<Ir("i", One, Two), It("j", Lst(<<Three, Two>>))>>, Lst(<<Iv, Jv>>)),
   For(<<It("i", Lst(<<One, Two>>)), Ir("j", Two, One)>>, Bin("add", Bin("mul", Iv, I("10", 10)), Jv)),
